@@ -81,8 +81,9 @@ def tokenize(text):
                 tk["join"] = True
                 # a colon WITHOUT a blank before it, after a line that is one bare word, would turn that word into a label
                 tk["tight"] = len(re.findall(r'\S+', lines[i])) > 1
-    # a blank next to a parenthesis, a comma, a semicolon or an operator sign separates nothing that would otherwise run
-    # together: it may be left out (FOR I = 1 TO (7)STEP 3, PRINT(1), A=1)
+    # a blank next to a comma, a semicolon or an operator sign (not between a word and a parenthesis: whether a keyword
+    # may touch a parenthesis is decided case by case by this parser - )STEP yes, )ELSE no - and C09 does not ask for it)
+    # separates nothing that would otherwise run together: it may be left out (A=1, PRINT 1;2, X=(1)+(2))
     for i, tk in enumerate(toks):
         if tk["k"] == "blank" and 0 < i < len(toks) - 1:
             a, b_ = toks[i - 1], toks[i + 1]
@@ -90,8 +91,7 @@ def tokenize(text):
             # not after a name that would become a call / an array reference: NAME (..) and NAME(..) are different things
             if a["k"] == "word" and b_["text"] in ("+", "-"):
                 continue        # a sign directly after a keyword (TO-2, STEP-2): not required of the parser by C09
-            if (a["k"] == "other" and a["text"] in signs and a["text"] != ")") or (b_["k"] == "other" and b_["text"] in signs and b_["text"] != "(") \
-                    or (a["text"] == ")" and b_["k"] == "word" and b_["text"].upper() != "AS") or (b_["text"] == "(" and a["k"] == "word" and a["text"].upper() in KEYWORDS):
+            if (a["k"] == "other" and a["text"] in signs and a["text"] != ")") or (b_["k"] == "other" and b_["text"] in signs and b_["text"] != "("):
                 tk["drop"] = True
     # a colon that separates two statements may have blanks around it; the colon of a label may not (it belongs to the name)
     start = 0
